@@ -254,21 +254,23 @@ Definition drop (n : nat) (s : string) : string := substring n (String.length s 
     value with key = name minus prefix (childLinkType / makeShardValue); the child
     index of the n-th link is the n-th set bit (makeChilder).  A value link whose
     name is only [pad] long (empty key) would be loaded as a shard and fail. *)
+Fixpoint zip_children (bs : list Z) (ts : list (option (trie val))) : option (children val) :=
+  match bs, ts with
+  | [], [] => Some []
+  | b :: bs', Some t :: ts' =>
+      match zip_children bs' ts' with Some r => Some ((b, t) :: r) | None => None end
+  | _, _ => None
+  end.
+
 Fixpoint from_node (pad : nat) (n : pnode) : option (trie val) :=
   match n with
   | PLeaf nm v =>
       if (String.length nm <=? pad)%nat then None else Some (Leaf (drop pad nm) v)
   | PNode nm bits links =>
-      if negb (List.length bits =? List.length links)%nat then None else
-      (fix go (bs : list Z) (ls : list pnode) {struct ls} : option (trie val) :=
-         match bs, ls with
-         | b :: bs', l :: ls' =>
-             match from_node pad l, go bs' ls' with
-             | Some t, Some (Node r) => Some (Node ((b, t) :: r))
-             | _, _ => None
-             end
-         | _, _ => Some (Node [])
-         end) bits links
+      match zip_children bits (map (from_node pad) links) with
+      | Some cs => Some (Node cs)
+      | None => None
+      end
   end.
 
 (* ------------------------------------------------------------------ *)
